@@ -1,4 +1,31 @@
-/- C19: the registry behaves as one atomic map under any concurrency — theorems about the small-step lock model. -/
+/- C19: the registry behaves as one atomic map under any concurrency.  The bodies of Registry / Get / Remove / Clear are
+   REGENERATED from codec/checksum.go as lock programs (Gen.lockProgs); the theorems are about the small-step semantics that
+   interprets such programs for any number of goroutines: every well-bracketed set of programs is mutually exclusive and
+   linearizable w.r.t. its own atomic semantics (kernel-evaluated: wellBracketed Gen.lockProgs), and the regenerated programs
+   equal the pinned ones, whose atomic semantics is the map specification. -/
+import FinProto.GenLock
 import FinProto.Props.RegistryProofs
+import FinProto.Props.LockProgProofs
 namespace FinProto.Obl
+open FinProto FinProto.Reg
+set_option linter.defProp false
+
+theorem C19_wellBracketed : wellBracketed Gen.lockProgs = true := by decide
+theorem C19_progs_pinned : Gen.lockProgs = pinnedProgs := by decide
+
+/-- mutual exclusion / data-race freedom of every interleaving of the regenerated programs -/
+def C19_mutual_exclusion := @pmutual_exclusion Gen.lockProgs C19_wellBracketed
+def C19_write_needs_lock := @pwrite_needs_lock Gen.lockProgs C19_wellBracketed
+
+/-- every reachable state of every interleaving of the regenerated programs: completed calls returned what the map
+    specification returns when the calls run atomically in lock-release order -/
+theorem C19_linearizable {m0 : Map} {s : PState} (h : PReachable Gen.lockProgs m0 s) :
+    let calls := s.lin.map (fun x => x.2.1)
+    (runSpec m0 calls).2 = s.lin.map (fun x => x.2.2) ∧ (s.lock = .free → s.mem = (runSpec m0 calls).1) := by
+  rw [C19_progs_pinned] at h
+  have := pinned_linearizable h
+  exact ⟨this.1, this.2.1⟩
+
+def C19_real_time := @preal_time Gen.lockProgs
+
 end FinProto.Obl
